@@ -86,6 +86,9 @@ class Frame(Widget, WidgetContainerMixin, typing.Generic[BodyWidget, HeaderWidge
             self.focus_part = "body"
         else:
             raise ValueError(f"Invalid focus part {focus_part!r}")
+        if (self.focus_part == "header" and header is None) or (self.focus_part == "footer" and footer is None):
+            # there is no such part: as when the part in focus is removed later, the body takes the focus
+            self.focus_part = "body"
 
         _check_widget_subclass(header)
         _check_widget_subclass(body)
